@@ -53,34 +53,34 @@ theorem class_abstraction_sound (r : Re) {x y : Nat} (h : SameSide (cutsOf r) x 
 
 theorem reAut_respects : reAut.Respects := fun q _ _ h => class_abstraction_sound q h
 
-theorem rep_le (cuts : List Nat) (x : Nat) : rep cuts x ≤ x := by
+theorem rep_le (cuts : List Nat) (x : Nat) : cutRep cuts x ≤ x := by
   induction cuts with
-  | nil => simp [rep]
-  | cons c cs ih => simp only [rep]; split <;> omega
+  | nil => simp [cutRep]
+  | cons c cs ih => simp only [cutRep]; split <;> omega
 
-theorem le_rep (cuts : List Nat) (x : Nat) : ∀ c ∈ cuts, c ≤ x → c ≤ rep cuts x := by
+theorem le_rep (cuts : List Nat) (x : Nat) : ∀ c ∈ cuts, c ≤ x → c ≤ cutRep cuts x := by
   induction cuts with
   | nil => intro c hc; cases hc
   | cons d cs ih =>
     intro c hc hcx
-    simp only [rep]
+    simp only [cutRep]
     rcases List.mem_cons.mp hc with rfl | hc'
     · split <;> omega
     · have := ih c hc' hcx
       split <;> omega
 
-theorem rep_mem (cuts : List Nat) (x : Nat) : rep cuts x = 0 ∨ rep cuts x ∈ cuts := by
+theorem rep_mem (cuts : List Nat) (x : Nat) : cutRep cuts x = 0 ∨ cutRep cuts x ∈ cuts := by
   induction cuts with
-  | nil => simp [rep]
+  | nil => simp [cutRep]
   | cons c cs ih =>
-    simp only [rep]
+    simp only [cutRep]
     split
     · right; simp
     · rcases ih with h | h
       · left; exact h
       · right; simp [h]
 
-theorem rep_sameSide (cuts : List Nat) (x : Nat) : SameSide cuts x (rep cuts x) := by
+theorem rep_sameSide (cuts : List Nat) (x : Nat) : SameSide cuts x (cutRep cuts x) := by
   intro c hc
   constructor
   · exact le_rep cuts x c hc
@@ -89,23 +89,23 @@ theorem rep_sameSide (cuts : List Nat) (x : Nat) : SameSide cuts x (rep cuts x) 
 section
 variable {σ τ : Type} [DecidableEq σ] [DecidableEq τ]
 
-/-- A set of state pairs accepted by `closed` is a bisimulation on ALL code points. -/
+/-- A set of state pairs accepted by `bisimClosed` is a bisimulation on ALL code points. -/
 theorem closed_sound (A : Aut σ) (B : Aut τ) (hA : A.Respects) (hB : B.Respects)
     (alpha : List Nat) (p0 : σ) (q0 : τ) (seen : List (σ × τ))
-    (h : closed A B alpha p0 q0 seen = true) :
+    (h : bisimClosed A B alpha p0 q0 seen = true) :
     ∀ w, A.accepts p0 w = B.accepts q0 w := by
-  simp only [closed, Bool.and_eq_true, List.all_eq_true, List.contains_iff_mem, beq_iff_eq] at h
+  simp only [bisimClosed, Bool.and_eq_true, List.all_eq_true, List.contains_iff_mem, beq_iff_eq] at h
   obtain ⟨⟨h0, hstart⟩, hall⟩ := h
   have step : ∀ pq ∈ seen, ∀ x, (A.step pq.1 x, B.step pq.2 x) ∈ seen := by
     intro pq hpq x
     obtain ⟨⟨⟨_, hca⟩, hcb⟩, hcl⟩ := hall pq hpq
     have hr := rep_sameSide alpha x
-    have hin : rep alpha x ∈ alpha := by
+    have hin : cutRep alpha x ∈ alpha := by
       rcases rep_mem alpha x with h | h
       · rw [h]; exact h0
       · exact h
-    have e1 : A.step pq.1 x = A.step pq.1 (rep alpha x) := hA _ _ _ (hr.mono hca)
-    have e2 : B.step pq.2 x = B.step pq.2 (rep alpha x) := hB _ _ _ (hr.mono hcb)
+    have e1 : A.step pq.1 x = A.step pq.1 (cutRep alpha x) := hA _ _ _ (hr.mono hca)
+    have e2 : B.step pq.2 x = B.step pq.2 (cutRep alpha x) := hB _ _ _ (hr.mono hcb)
     rw [e1, e2]
     exact hcl _ hin
   have run : ∀ w, ∀ pq ∈ seen, (A.run pq.1 w, B.run pq.2 w) ∈ seen := by
@@ -125,7 +125,7 @@ theorem autEquiv_sound (A : Aut σ) (B : Aut τ) (hA : A.Respects) (hB : B.Respe
     (p0 : σ) (q0 : τ) (fuel : Nat) (h : autEquiv A B p0 q0 fuel = true) :
     ∀ w, A.accepts p0 w = B.accepts q0 w := by
   simp only [autEquiv] at h
-  cases hx : explore A B (alphabetOf A B p0 q0) fuel [((p0, q0), [])] [] with
+  cases hx : bisimExplore A B (alphabetOf A B p0 q0) fuel [((p0, q0), [])] [] with
   | equiv seen => rw [hx] at h; exact closed_sound A B hA hB _ p0 q0 _ h
   | differ w => rw [hx] at h; cases h
   | fuel => rw [hx] at h; cases h
@@ -136,11 +136,11 @@ theorem reAut_accepts (r : Re) (w : List Nat) : reAut.accepts r w = matchesRe r 
 /-- If the checker says yes, the regex and the automaton accept exactly the same strings (over
     all code point sequences), provided the automaton's step function only compares characters
     against its declared cut points. -/
-theorem re_equiv_sound (r : Re) (D : Dfa) (hD : D.aut.Respects) (fuel : Nat)
+theorem re_equiv_sound (r : Re) (D : SpecDfa) (hD : D.aut.Respects) (fuel : Nat)
     (h : reEquivDfa r D fuel = true) : ∀ w, matchesRe r w = D.accepts w := by
   intro w
   have := autEquiv_sound reAut D.aut reAut_respects hD r D.start fuel h w
-  simpa [reAut_accepts, Dfa.accepts] using this
+  simpa [reAut_accepts, SpecDfa.accepts] using this
 
 theorem re_equiv_re_sound (r s : Re) (fuel : Nat) (h : reEquiv r s fuel = true) :
     ∀ w, matchesRe r w = matchesRe s w := by
